@@ -217,15 +217,22 @@ Proof.
   - destruct H as [<-|[]]; reflexivity.
 Qed.
 
-Definition moved_ok (ns : list node) (t : Z) (sites : list site) (pairs : list (edge * option Z))
-           (m m' : mutation) : Prop :=
+Definition moved_ok (ns : list node) (t : Z) (es : list edge) (sites : list site)
+           (pairs : list (edge * option Z)) (m m' : mutation) : Prop :=
   exists v, m' = set_node m v /\
+    (* below the cut: never moved *)
     (mtime ns m < t -> v = m_node m) /\
+    (* moved: at/above the cut, onto the new node of an intersecting edge above it *)
     (v <> m_node m ->
        t <= mtime ns m /\
        exists e st, In (e, Some v) pairs /\ e_child e = m_node m /\
                     nth_error sites (Z.to_nat (m_site m)) = Some st /\ e_left e <= s_pos st < e_right e) /\
-    (m_time m = None -> 0 <= m_node m < zlen ns).
+    (m_time m = None -> 0 <= m_node m < zlen ns) /\
+    (* not moved although at/above the cut: the edge above it does not intersect the cut *)
+    (v = m_node m -> t <= mtime ns m ->
+       forall st j e, nth_error sites (Z.to_nat (m_site m)) = Some st ->
+                      edge_above es (s_pos st) (m_node m) = Some j -> nth_error es j = Some e ->
+                      splits ns t e = false).
 
 Lemma find_index_some {A} (f : A -> bool) l j : find_index f l = Some j ->
   exists a, nth_error l j = Some a /\ f a = true.
@@ -245,29 +252,59 @@ Proof.
   - right. eapply IH; eauto.
 Qed.
 
-Lemma split_mut_spec ns t es sites sp m m' :
-  split_mut t (map n_time ns) es sites sp m = Ok m' ->
-  length sp = length es ->
-  moved_ok ns t sites (combine es sp) m m'.
+Lemma assign_new_nth ns t es : forall next j e,
+  nth_error es j = Some e ->
+  exists o, nth_error (assign_new ns t next es) j = Some o /\
+            (o = None -> splits ns t e = false) /\ (forall u, o = Some u -> splits ns t e = true /\ next <= u).
 Proof.
-  unfold split_mut. intros H Hlen.
+  induction es as [|e0 es IH]; intros next j e H; [destruct j; discriminate|].
+  simpl. destruct j as [|j]; simpl in H.
+  - inversion H; subst. destruct (splits ns t e) eqn:S; eexists; (split; [reflexivity|]); split; try congruence.
+    + intros u Hu. inversion Hu; subst. split; [reflexivity|lia].
+  - destruct (splits ns t e0); simpl.
+    + destruct (IH (next + 1) j e H) as (o & O1 & O2 & O3). exists o. split; [exact O1|]. split; [exact O2|].
+      intros u Hu. destruct (O3 u Hu). split; [assumption|lia].
+    + apply IH. exact H.
+Qed.
+
+Lemma split_mut_spec ns t es sites next m m' :
+  split_mut t (map n_time ns) es sites (assign_new ns t next es) m = Ok m' ->
+  (forall e, In e es -> e_child e < next) ->
+  moved_ok ns t es sites (combine es (assign_new ns t next es)) m m'.
+Proof.
+  unfold split_mut. intros H Hch. set (sp := assign_new ns t next es) in *.
+  assert (Hlen : length sp = length es) by apply assign_new_length.
   apply bind_ok in H as (st & Hst & H). apply bind_ok in H as (mt & Hmt & H).
   pose proof (mut_time_unknown_range _ _ _ Hmt) as Hr.
   apply mut_time_ok in Hmt. subst mt.
   apply get_nth_error in Hst as [S0 Hst].
-  assert (Keep : moved_ok ns t sites (combine es sp) m m).
-  { exists (m_node m). split; [symmetry; apply set_node_same|]. split; [reflexivity|]. split; [congruence|exact Hr]. }
-  destruct (edge_above es (s_pos st) (m_node m)) as [j|] eqn:EA; [|inversion H; subst; exact Keep].
-  destruct (nth j sp None) as [u|] eqn:N; [|inversion H; subst; exact Keep].
-  destruct (mtime ns m >=? t) eqn:G; [|inversion H; subst; exact Keep].
-  inversion H; subst; clear H. exists u. split; [reflexivity|]. split; [lia|]. split; [|exact Hr].
-  intros _. split; [lia|].
-  unfold edge_above in EA. apply find_index_some in EA as (e & E1 & E2).
-  exists e, st. split.
-  - eapply nth_combine; [exact E1|].
-    assert (Hj : (j < length sp)%nat) by (rewrite Hlen; apply nth_error_Some; congruence).
-    rewrite (nth_error_nth' sp None Hj). rewrite N. reflexivity.
-  - split; [lia|]. split; [exact Hst|lia].
+  assert (Keep : (t <= mtime ns m ->
+                  forall j e, edge_above es (s_pos st) (m_node m) = Some j -> nth_error es j = Some e ->
+                              splits ns t e = false) ->
+                 moved_ok ns t es sites (combine es sp) m m).
+  { intros D. exists (m_node m). split; [symmetry; apply set_node_same|]. split; [reflexivity|].
+    split; [congruence|]. split; [exact Hr|].
+    intros _ Ht st' j e Hst' EA Ne. rewrite Hst in Hst'. inversion Hst'; subst st'. eapply D; eauto. }
+  destruct (edge_above es (s_pos st) (m_node m)) as [j|] eqn:EA;
+    [|inversion H; subst; apply Keep; intros _ j e Hj; discriminate].
+  pose proof EA as EA0. unfold edge_above in EA0. apply find_index_some in EA0 as (e & E1 & E2).
+  destruct (assign_new_nth ns t es next j e E1) as (o & O1 & O2 & O3). fold sp in O1.
+  assert (Hnth : nth j sp None = o).
+  { assert (Hj : (j < length sp)%nat) by (rewrite Hlen; apply nth_error_Some; congruence).
+    pose proof (nth_error_nth' sp None Hj) as Q. rewrite O1 in Q. inversion Q. reflexivity. }
+  rewrite Hnth in H.
+  destruct o as [u|].
+  - destruct (O3 u eq_refl) as [Sp Un].
+    destruct (mtime ns m >=? t) eqn:G.
+    + inversion H; subst; clear H. exists u. split; [reflexivity|]. split; [lia|].
+      split.
+      { intros _. split; [lia|]. exists e, st. split; [eapply nth_combine; eauto|].
+        split; [lia|]. split; [exact Hst|lia]. }
+      split; [exact Hr|].
+      intros Hu. exfalso. assert (e_child e < next) by (apply Hch; eapply nth_error_In; eauto). lia.
+    + inversion H; subst. apply Keep. intros Ht. lia.
+  - inversion H; subst. apply Keep. intros _ j' e' Hj' Ne'. inversion Hj'; subst j'.
+    rewrite E1 in Ne'. inversion Ne'; subst e'. apply O2. reflexivity.
 Qed.
 
 Theorem split_edges_spec_lemma srt t flags pop md npop tb tb' :
@@ -286,7 +323,7 @@ Theorem split_edges_spec_lemma srt t flags pop md npop tb tb' :
   Permutation (t_edges tb') (flat_map split_rows pairs) /\
   (* mutations: all fields but the node kept; moved only when at/above the cut, and then onto
      the new node of the edge above them *)
-  Forall2 (moved_ok ns t (t_sites tb) pairs) (t_muts tb) (t_muts tb').
+  Forall2 (moved_ok ns t (t_edges tb) (t_sites tb) pairs) (t_muts tb) (t_muts tb').
 Proof.
   intros S H ns N k pairs. unfold split_edges in H.
   destruct (pop <? -1) eqn:P1; [discriminate|].
@@ -304,7 +341,7 @@ Proof.
   { rewrite (srt_edges _ S). simpl. rewrite E2, E1. apply Permutation_refl. }
   apply mapM_ok in Hm. rewrite E1 in Hm. fold ns N in Hm.
   induction Hm; constructor; auto.
-  eapply split_mut_spec; [eassumption|]. apply assign_new_length.
+  eapply split_mut_spec; [eassumption|]. intros e He. apply E3 in He. unfold N, ns. lia.
 Qed.
 
 (* ancestry between old nodes: an edge survives as a row iff it does not intersect the cut *)
@@ -375,13 +412,13 @@ Qed.
 
 (* young-ness of a mutation after split_edges (over the extended node table) is its
    young-ness before, and a young mutation has not been touched *)
-Lemma moved_young ns t sites pairs row k m m' :
+Lemma moved_young ns t es sites pairs row k m m' :
   n_time row = t ->
   (forall e v, In (e, Some v) pairs -> zlen ns <= v < zlen ns + Z.of_nat k) ->
-  moved_ok ns t sites pairs m m' ->
+  moved_ok ns t es sites pairs m m' ->
   young ns t m = young (ns ++ repeat row k) t m' /\ (young ns t m = true -> m' = m).
 Proof.
-  intros Hrow Hnew (v & -> & A & B & C).
+  intros Hrow Hnew (v & -> & A & B & C & _).
   destruct (Z.eq_dec v (m_node m)) as [->|Hne].
   - rewrite set_node_same. split; [|reflexivity]. unfold young, mtime.
     destruct (m_time m) eqn:T; [reflexivity|]. rewrite node_time_app_old by auto. reflexivity.
@@ -464,7 +501,7 @@ Proof.
       rewrite (node_time_app_old ns _ (e_parent e0)) in Hf by exact Rp. lia. }
   (* mutations *)
   rewrite B6.
-  assert (Sync : forall a b, moved_ok ns t (t_sites tb) (combine (t_edges tb) (assign_new ns t N (t_edges tb))) a b ->
+  assert (Sync : forall a b, moved_ok ns t (t_edges tb) (t_sites tb) (combine (t_edges tb) (assign_new ns t N (t_edges tb))) a b ->
                              young ns t a = young (ns ++ repeat (mkN flags t pop (-1) md) k) t b /\ (young ns t a = true -> b = a)).
   { intros a b Hab. eapply moved_young; eauto. }
   rewrite (Forall2_filter_sync _ (young ns t) (young (ns ++ repeat (mkN flags t pop (-1) md) k) t) _ _ A9 Sync).
